@@ -208,6 +208,7 @@ type Cluster struct {
 	Data    *meta.Data
 	stores  []*faultStore
 	Down    []bool
+	Lagging map[int]bool // nodes whose metadata cache lags behind
 }
 
 // SlowTimeout is the RPC timeout of a cluster made by NewWithTimeout for cases with a slow
@@ -264,10 +265,19 @@ func NewWithTimeout(dir string, n int, index string, rpcTimeout time.Duration) (
 func (c *Cluster) push() {
 	c.Data.Index++
 	for i, nd := range c.Nodes {
-		if !c.Down[i] {
+		if !c.Down[i] && !c.Lagging[i] {
 			nd.SetData(c.Data.Clone())
 		}
 	}
+}
+
+// SetLagging: the node's metadata cache stops following (it keeps what it has) until the
+// flag is cleared; Catchup pushes the current metadata to everyone.
+func (c *Cluster) SetLagging(i int, lag bool) {
+	if c.Lagging == nil {
+		c.Lagging = map[int]bool{}
+	}
+	c.Lagging[i] = lag
 }
 
 func (c *Cluster) Close() {
